@@ -4,10 +4,11 @@ use orca_whirlpools_macros::wasm_expose;
 use ethnum::U256;
 
 use crate::{
-    order_tick_indexes, position_status, tick_index_to_sqrt_price, try_apply_transfer_fee,
-    try_get_max_amount_with_slippage_tolerance, try_get_min_amount_with_slippage_tolerance,
-    try_reverse_apply_transfer_fee, CoreError, DecreaseLiquidityQuote, IncreaseLiquidityQuote,
-    PositionStatus, TransferFee, AMOUNT_EXCEEDS_MAX_U64, ARITHMETIC_OVERFLOW, U128,
+    checked_shl_64, order_tick_indexes, position_status, tick_index_to_sqrt_price,
+    try_apply_transfer_fee, try_get_max_amount_with_slippage_tolerance,
+    try_get_min_amount_with_slippage_tolerance, try_reverse_apply_transfer_fee, CoreError,
+    DecreaseLiquidityQuote, IncreaseLiquidityQuote, PositionStatus, TransferFee,
+    AMOUNT_EXCEEDS_MAX_U64, ARITHMETIC_OVERFLOW, U128,
 };
 
 /// Calculate the quote for decreasing liquidity
@@ -463,11 +464,12 @@ fn try_get_token_a_from_liquidity(
     round_up: bool,
 ) -> Result<u64, CoreError> {
     let sqrt_price_diff = sqrt_price_upper - sqrt_price_lower;
-    let numerator: U256 = <U256>::from(liquidity_delta)
-        .checked_mul(sqrt_price_diff.into())
-        .ok_or(ARITHMETIC_OVERFLOW)?
-        .checked_shl(64)
-        .ok_or(ARITHMETIC_OVERFLOW)?;
+    let numerator: U256 = checked_shl_64(
+        <U256>::from(liquidity_delta)
+            .checked_mul(sqrt_price_diff.into())
+            .ok_or(ARITHMETIC_OVERFLOW)?,
+    )
+    .ok_or(ARITHMETIC_OVERFLOW)?;
     let denominator = <U256>::from(sqrt_price_upper)
         .checked_mul(<U256>::from(sqrt_price_lower))
         .ok_or(ARITHMETIC_OVERFLOW)?;
